@@ -71,14 +71,19 @@ Proof.
   pose proof (cells_ok_little f sigs Hf Hin Hle) as Hok.
   pose proof (little_scan3 (visit_little (layout_idx f sigs)) 0 None) as L. cbn [option_map] in L. rewrite L.
   destruct (scan3 (visit_little (layout_idx f sigs)) 0 None) as [[[n0 n1] k]|] eqn:E; cbn [option_map fst snd].
-  - apply (scan_moves sigs (8 * f) _ n0 n1 k (fun st => st - (n1 - n0)) Hok Hin E). intros s _ Hs. cbv beta. clear - Hs. lia.
+  - apply (scan_moves sigs (8 * f) _ n0 n1 k (fun st => st - (n1 - n0)) Hok Hin E). intros s _ Hs. cbv beta. lia.
   - apply (scan_final sigs (8 * f) _ Hok E).
 Qed.
 
 (* ---------- what one move keeps ---------- *)
 
 Lemma sum_starts_app : forall l1 l2, sum_starts (l1 ++ l2) = sum_starts l1 + sum_starts l2.
-Proof. induction l1 as [|x l1 IH]; intros l2; cbn [app sum_starts fold_right]; [lia|]. unfold sum_starts in IH. rewrite IH. lia. Qed.
+Proof.
+  induction l1 as [|x l1 IH]; intros l2.
+  - change (sum_starts []) with 0. cbn [app]. lia.
+  - change (sum_starts ((x :: l1) ++ l2)) with (s_start x + sum_starts (l1 ++ l2)).
+    change (sum_starts (x :: l1)) with (s_start x + sum_starts l1). rewrite IH. lia.
+Qed.
 
 Lemma sum_starts_nonneg : forall W sigs, Forall (fun s => inside0 W s = true) sigs -> 0 <= sum_starts sigs.
 Proof.
@@ -98,7 +103,8 @@ Proof.
   apply Forall_app in G1. destruct G1 as [A1 A2]. inversion A2 as [|? ? A3 A4]; subst.
   apply Forall_app in G2. destruct G2 as [B1 B2]. inversion B2 as [|? ? B3 B4]; subst.
   split; apply Forall_app; (split; [assumption|]); constructor; try assumption.
-  apply inside0_facts in A3. unfold inside0. cbn [set_start s_start s_size]. lia.
+  - apply inside0_facts in A3. unfold inside0. cbn [set_start s_start s_size]. lia.
+  - reflexivity.
 Qed.
 
 Lemma moved_shape : forall sigs sigs', moved sigs sigs' -> map shape sigs' = map shape sigs.
@@ -151,10 +157,6 @@ Proof.
 Qed.
 
 (* relative order of the start bits *)
-Definition same_order (xs ys : list Z) : Prop :=
-  length xs = length ys /\
-  forall i j, (i < length xs)%nat -> (j < length xs)%nat ->
-    (nth i xs 0 <? nth j xs 0) = (nth i ys 0 <? nth j ys 0).
 
 Lemma same_order_refl : forall xs, same_order xs xs.
 Proof. intros xs. split; [reflexivity|]. intros; reflexivity. Qed.
@@ -250,22 +252,18 @@ Proof.
   destruct H as [H1 H2]. constructor; [exact H1|apply IH; exact H2].
 Qed.
 
-(* which loop runs *)
-Inductive dispatch (fuel : nat) (f : Z) (sigs : list signal) : Prop :=
-| DMixed : compress fuel f sigs = Some sigs -> existsb s_le sigs = true -> forallb s_le sigs = false -> dispatch fuel f sigs
-| DLoop : forall le, Forall (fun s => s_le s = le) sigs ->
-    compress fuel f sigs = iter_loop (if le then little_stepf f else big_stepf f) fuel sigs -> dispatch fuel f sigs.
-
-Lemma compress_dispatch : forall fuel f sigs, dispatch fuel f sigs.
+(* which loop runs (independent of the fuel) *)
+Lemma compress_dispatch : forall f sigs,
+  (existsb s_le sigs = true /\ forallb s_le sigs = false /\ forall fuel, compress fuel f sigs = Some sigs) \/
+  (exists le, Forall (fun s => s_le s = le) sigs /\
+     forall fuel, compress fuel f sigs = iter_loop (if le then little_stepf f else big_stepf f) fuel sigs).
 Proof.
-  intros fuel f sigs. unfold compress, compress_little.
+  intros f sigs. unfold compress, compress_little.
   destruct (existsb s_le sigs) eqn:E1.
   - destruct (forallb s_le sigs) eqn:E2.
-    + apply (DLoop fuel f sigs true); [apply forallb_true_all; exact E2|].
-      unfold compress, compress_little. rewrite E1, E2. apply little_loop_iter.
-    + apply DMixed; [unfold compress, compress_little; rewrite E1, E2; reflexivity|exact E1|exact E2].
-  - apply (DLoop fuel f sigs false); [apply existsb_false_all; exact E1|].
-    unfold compress. rewrite E1. apply big_loop_iter.
+    + right. exists true. split; [apply forallb_true_all; exact E2|]. intros fuel. apply little_loop_iter.
+    + left. split; [reflexivity|]. split; reflexivity.
+  - right. exists false. split; [apply existsb_false_all; exact E1|]. intros fuel. apply big_loop_iter.
 Qed.
 
 Lemma stepf_ok_le : forall f le, 0 <= f -> stepf_ok (8 * f) le (if le then little_stepf f else big_stepf f).
@@ -275,24 +273,11 @@ Theorem compress_terminates : forall f sigs fuel,
   0 <= f -> Forall (fun s => inside0 (8 * f) s = true) sigs -> (compress_fuel sigs <= fuel)%nat ->
   exists r, compress fuel f sigs = Some r /\ compress (compress_fuel sigs) f sigs = Some r.
 Proof.
-  intros f sigs fuel Hf Hin Hfuel. destruct (compress_dispatch (compress_fuel sigs) f sigs) as [H _ _|le Hle H].
-  - exists sigs. split; [|exact H]. destruct (compress_dispatch fuel f sigs) as [H2 _ _|le Hle H2]; [exact H2|].
-    unfold compress, compress_little in H |- *. destruct (existsb s_le sigs); [|discriminate].
-    destruct (forallb s_le sigs); [discriminate|reflexivity].
+  intros f sigs fuel Hf Hin Hfuel. destruct (compress_dispatch f sigs) as [[_ [_ H]]|[le [Hle H]]].
+  - exists sigs. split; apply H.
   - destruct (iter_props (8 * f) le _ (stepf_ok_le f le Hf) (compress_fuel sigs) sigs (conj Hin Hle)
                 (compress_fuel_sum _ _ Hin)) as [r [R1 _]].
-    exists r. split; [|rewrite H; exact R1].
-    pose proof (iter_mono _ _ _ _ R1 fuel Hfuel) as R2.
-    unfold compress, compress_little in H |- *. destruct (existsb s_le sigs) eqn:E1.
-    + destruct (forallb s_le sigs) eqn:E2.
-      * rewrite little_loop_iter in *. destruct le; [exact R2|].
-        exfalso. apply existsb_exists in E1. destruct E1 as [s [S1 S2]]. rewrite Forall_forall in Hle. rewrite (Hle s S1) in S2. discriminate.
-      * exfalso. destruct le.
-        -- assert (forallb s_le sigs = true) by (apply forallb_forall; rewrite Forall_forall in Hle; exact Hle). congruence.
-        -- apply existsb_exists in E1. destruct E1 as [s [S1 S2]]. rewrite Forall_forall in Hle. rewrite (Hle s S1) in S2. discriminate.
-    + rewrite big_loop_iter in *. destruct le; [|exact R2].
-      destruct sigs as [|s l]; [|inversion Hle as [|? ? A B]; subst; cbn [existsb] in E1; rewrite A in E1; discriminate].
-      destruct fuel; [cbn in Hfuel; lia|]. cbn in R2 |- *. exact R2.
+    exists r. rewrite !H. split; [|exact R1]. apply (iter_mono _ _ _ _ R1 fuel Hfuel).
 Qed.
 
 (* the facts about a finished compress, in walking coordinates *)
@@ -307,7 +292,7 @@ Lemma compress_facts : forall f sigs fuel r,
         (forall n, (wcount r n <= 1)%nat) /\
         (Forall (fun s => 1 <= s_size s) sigs -> same_order (map s_start sigs) (map s_start r)))).
 Proof.
-  intros f sigs fuel r Hf Hin Hr. destruct (compress_dispatch fuel f sigs) as [H E1 E2|le Hle H].
+  intros f sigs fuel r Hf Hin Hr. destruct (compress_dispatch f sigs) as [[E1 [E2 H]]|[le [Hle H]]].
   - rewrite H in Hr. inversion Hr; subst r. split; [reflexivity|]. left. repeat split; assumption.
   - rewrite H in Hr.
     set (F := Nat.max fuel (compress_fuel sigs)).
@@ -336,7 +321,6 @@ Proof.
   - intros C. apply count_le1_disjoint. intros p. rewrite (occ_count_wcount le sigs p H). apply C.
 Qed.
 
-Definition used (sigs : list signal) (p : Z) : Prop := exists s, In s sigs /\ occupies s p.
 
 Lemma used_used_at : forall le sigs n, Forall (fun s => s_le s = le) sigs ->
   (used sigs (walk_pos le n) <-> used_at sigs n).
